@@ -70,6 +70,30 @@ Proof.
   apply orb_true_iff in H1 as [H1|H1]; apply N.eqb_eq in H1; exfalso; apply Hk; [left|right]; exact H1.
 Qed.
 
+(* every octet outside printable ASCII -- in particular DEL (0x7F), which the reader's
+   next_ascii_symbol fast path would take verbatim -- is written as a decimal escape by
+   Display for Label and by all three Symbol constructors *)
+Lemma nonprintable_escaped : forall b, b < 256 -> (b < 32 \/ 127 <= b) ->
+  label_sym b = SDec b /\ from_octet b = SDec b /\ quoted_from_octet b = SDec b /\ display_from_octet b = SDec b.
+Proof.
+  intros b Hb Hr.
+  assert (H : forallb (fun b => ((32 <=? b) && (b <? 127)) ||
+     (match label_sym b with SDec c => c =? b | _ => false end &&
+      match from_octet b with SDec c => c =? b | _ => false end &&
+      match quoted_from_octet b with SDec c => c =? b | _ => false end &&
+      match display_from_octet b with SDec c => c =? b | _ => false end)) octets256 = true) by (vm_compute; reflexivity).
+  pose proof (forall_octets _ H b Hb) as H1. cbv beta in H1.
+  apply orb_true_iff in H1 as [H1|H1]; [lia|].
+  apply andb_true_iff in H1 as [H1 H4]. apply andb_true_iff in H1 as [H1 H3]. apply andb_true_iff in H1 as [H1 H2].
+  destruct (label_sym b); try discriminate. destruct (from_octet b); try discriminate.
+  destruct (quoted_from_octet b); try discriminate. destruct (display_from_octet b); try discriminate.
+  apply N.eqb_eq in H1, H2, H3, H4. subst. repeat split; reflexivity.
+Qed.
+
+Lemma del_escaped : label_sym 127 = SDec 127 /\ from_octet 127 = SDec 127 /\
+  quoted_from_octet 127 = SDec 127 /\ display_from_octet 127 = SDec 127.
+Proof. apply nonprintable_escaped; lia. Qed.
+
 Lemma digit3_ok : forall c, c < 256 ->
   is_digit (48 + c / 100) = true /\ is_digit (48 + (c / 10) mod 10) = true /\ is_digit (48 + c mod 10) = true /\
   (48 + c / 100 - 48) * 100 + (48 + (c / 10) mod 10 - 48) * 10 + (48 + c mod 10 - 48) = c.
@@ -253,7 +277,7 @@ Lemma read_charstr_quoted sp b : wf_charstr b ->
 Proof.
   intros [W L]. unfold read_charstr, read_octets. cbn [shape_tok t_syms].
   rewrite (enc_octets true) by (exact W || exact quoted_table). cbn [bind].
-  unfold len. destruct (255 <? N.of_nat (length b)) eqn:E; [lia|reflexivity].
+  unfold len, charstr_latest. destruct (255 <? N.of_nat (length b)) eqn:E; [lia|reflexivity].
 Qed.
 
 (* scan_show_charstr (quoted form): the text of a character string, followed by anything *)
@@ -294,7 +318,7 @@ Proof.
         apply N.eqb_eq in T1. subst. reflexivity.
       - apply N.eqb_eq in T. subst. reflexivity.
       - apply N.eqb_eq in T. subst. reflexivity. }
-    rewrite O. cbn [bind]. unfold len. destruct (255 <? N.of_nat (length b)) eqn:E; [lia|reflexivity].
+    rewrite O. cbn [bind]. unfold len, charstr_latest. destruct (255 <? N.of_nat (length b)) eqn:E; [lia|reflexivity].
 Qed.
 
 Lemma scan_show_charstr_unquoted_refuted :
